@@ -58,7 +58,17 @@ func OracleC10(tr *Trace) Verdict {
 			onlyStarts = false
 		}
 	}
-	if !(p.FaultFree() && onlyStarts && p.MaxRTT() <= p.H/10) {
+	// timely notifications are part of "fault-free" for this clause: a running follower takes over on the
+	// incumbent's next heartbeat event, so watch-delivery delay is bounded like store latency (H/10)
+	timely := true
+	for _, in := range p.Instances {
+		for _, d := range in.WatchDelay {
+			if d > p.H/10 {
+				timely = false
+			}
+		}
+	}
+	if !(p.FaultFree() && onlyStarts && timely && p.MaxRTT() <= p.H/10) {
 		v.Classes = append(v.Classes, "promptness-premise-false")
 		sortViols(v.Viols)
 		return v
